@@ -157,7 +157,9 @@ func (m *C01) OnCall(e *sim.Env, c *sim.Call) {
 	case "deliver":
 		if only := os.Getenv("VCHECK_TWIN_SKIPSEQ"); only != "" && only != fmt.Sprint(c.Entry.Seq) {
 			// debugging aid: skip exactly one call
-		} else if m.SkipTraceless && os.Getenv("VCHECK_TWIN_NOSKIP") == "" && c.Panic == "" && c.ResDeliver.Code != 0 && c.Pre.Raw != nil && len(sim.DiffRaw(c.Pre.Raw, c.Post.Raw)) == 0 {
+		} else if m.SkipTraceless && (e.Init == nil || e.Init.MaxGas <= 0) && os.Getenv("VCHECK_TWIN_NOSKIP") == "" && c.Panic == "" && c.ResDeliver.Code != 0 && c.Pre.Raw != nil && len(sim.DiffRaw(c.Pre.Raw, c.Post.Raw)) == 0 {
+			// (under a block gas limit a rejected transaction still uses up block gas, which later transactions of the
+			// block legitimately feel: there the twin is spared only the read-only calls)
 			e.Count("c11.twin.traceless_rejections_skipped")
 			return
 		}
